@@ -1016,6 +1016,22 @@ v("C10", "benign-loop-unpack", "benign", REWARDS,
   "        for comp_and_weight in self.reward_components:\n            comp = comp_and_weight[0]\n            weight = comp_and_weight[1]\n            total +=",
   "        for comp, weight in self.reward_components:\n            total +=", None, "tuple unpacking in the loop header")
 
+v("C12", "boot-countdown-ticks-after-the-reset-restart", "break", BASE,
+  '''        # time steps which require the node to be on
+        if self.operating_state == NodeOperatingState.ON:''',
+  '''        # a node that is still booting keeps counting
+        if self.operating_state == NodeOperatingState.BOOTING and self.config.start_up_countdown > 0:
+            self.config.start_up_countdown -= 1
+
+        # time steps which require the node to be on
+        if self.operating_state == NodeOperatingState.ON:''', "R12.6", "second decrement after the reset's power_on")
+v("C12", "node-is-on-guard-accepts-booting", "break", BASE,
+  '''            return self.node.operating_state == NodeOperatingState.ON''',
+  '''            return self.node.operating_state != NodeOperatingState.OFF''', "R12.3", "requests let through in transitional states")
+v("C12", "benign-guard-via-membership", "benign", BASE,
+  '''            return self.node.operating_state == NodeOperatingState.ON''',
+  '''            return self.node.operating_state in (NodeOperatingState.ON,)''', None, "membership form of the same predicate")
+
 # ------------------------------------------------------------------------------------------------ C13
 SERVICE = P + "simulator/system/services/service.py"
 APPLICATION = P + "simulator/system/applications/application.py"
